@@ -15,6 +15,19 @@ MODEL_OPS = {"enc_byte", "enc_str", "enc_ragged", "retarget", "change"}
 ASSUMPTIONS = ["NumPy fancy indexing _lookup[bytes] is element-wise (modelled as List.mapM)",
                "ragged encode = flat encode + unchanged row lengths (npstructures RaggedArray shape handling is external)"]
 
+MANIFEST = {
+    "text": "Lean 4 theorems for all strings/all alphabets: encode succeeds iff every byte is accepted, decode∘encode = upper-casing, "
+            "ragged shape kept, re-targeting and change_encoding never change the text (retarget_sound for every pair of "
+            "alphabets). The code's 256-entry tables of all ten predefined alphabet encodings are re-extracted from /repo on every run "
+            "into Gen/C06.lean and the whole-table obligation is re-checked by the kernel (decide +kernel). Correspondence: impl vs Lean "
+            "model vs Lean spec vs Python oracle on every byte x encoding, strings with a foreign byte at every position, every ordered "
+            "pair of alphabets.",
+    "note": "Element-wise application of the table to arrays (NumPy fancy indexing) and ragged shape handling (npstructures) are "
+            "modelled as omap/unflatten and exercised by the correspondence.",
+    "technique": "Lean 4 proof over tables regenerated from source (decide +kernel) + lifting lemmas; differential correspondence with the implementation",
+    "design": "§6 C06",
+}
+
 ENC_NAMES = ["ACTGEncoding", "ACGTEncoding", "ACTGnEncoding", "ACGTnEncoding", "DigitEncoding", "ACUGEncoding",
              "AminoAcidEncoding", "BamEncoding", "CigarOpEncoding", "StrandEncoding"]
 
